@@ -1,0 +1,49 @@
+//go:build verif
+
+package endpointsharding
+
+// Contracts checked by /verif (contract-based deductive verification).
+// This file is comment-only; it is compiled only with -tags=verif.
+
+//@ import connectivity "google.golang.org/grpc/connectivity"
+
+// ---- C35: aggregation over the endpoint children ------------------------------------
+//
+// updateStateLocked$1 is the body of `for _, epState := range es.endpoints.All()`
+// (go/ssa turns the body of a range-over-func loop into a function). Each child's
+// picker is appended to the list of exactly the child's own connectivity state.
+
+//@ func (*endpointSharding).updateStateLocked$1
+//@   prop C35
+//@   assert at call append#2 childState.State.ConnectivityState == connectivity.Ready && sameslice(arg0, readyPickers)
+//@   assert at call append#3 childState.State.ConnectivityState == connectivity.Connecting && sameslice(arg0, connectingPickers)
+//@   assert at call append#4 childState.State.ConnectivityState == connectivity.Idle && sameslice(arg0, idlePickers)
+//@   assert at call append#5 childState.State.ConnectivityState == connectivity.TransientFailure && sameslice(arg0, transientFailurePickers)
+//@   ensures len(readyPickers) == old(len(readyPickers)) + ite(old(childStateOf(epState)) == connectivity.Ready, 1, 0)
+//@   ensures len(connectingPickers) == old(len(connectingPickers)) + ite(old(childStateOf(epState)) == connectivity.Connecting, 1, 0)
+//@   ensures len(idlePickers) == old(len(idlePickers)) + ite(old(childStateOf(epState)) == connectivity.Idle, 1, 0)
+//@   ensures len(transientFailurePickers) == old(len(transientFailurePickers)) + ite(old(childStateOf(epState)) == connectivity.TransientFailure, 1, 0)
+
+//@ spec func childStateOf(ep *endpointState) connectivity.State { return ep.state.ConnectivityState }
+
+// The aggregate state reported to the parent is the precedence rule
+// READY > CONNECTING > IDLE > TRANSIENT_FAILURE over the per-state picker lists,
+// and the round-robin picker holds exactly the pickers of that state.
+//@ func (*endpointSharding).updateStateLocked
+//@   prop C35
+//@   assert at call randIntN#1 aggState == ite(len(readyPickers) >= 1, connectivity.Ready, ite(len(connectingPickers) >= 1, connectivity.Connecting, ite(len(idlePickers) >= 1, connectivity.Idle, connectivity.TransientFailure)))
+//@   assert at call randIntN#1 implies(len(readyPickers) >= 1, sameslice(pickers, readyPickers))
+//@   assert at call randIntN#1 implies(len(readyPickers) == 0 && len(connectingPickers) >= 1, sameslice(pickers, connectingPickers))
+//@   assert at call randIntN#1 implies(len(readyPickers) == 0 && len(connectingPickers) == 0 && len(idlePickers) >= 1, sameslice(pickers, idlePickers))
+//@   assert at call randIntN#1 implies(len(readyPickers) == 0 && len(connectingPickers) == 0 && len(idlePickers) == 0 && len(transientFailurePickers) >= 1, sameslice(pickers, transientFailurePickers))
+//@   assert at call randIntN#1 len(pickers) >= 1 && arg0 == len(pickers)
+//@   assert at call UpdateState#1 arg0.ConnectivityState == aggState
+
+// Round robin: the delegate is pickers[(old next + 1) mod len]; successive
+// picks therefore visit consecutive residues and per-child pick counts over any
+// window differ by at most one (until the uint32 counter wraps at 2^32).
+//@ func (*pickerWithChildStates).Pick
+//@   prop C35
+//@   requires p != nil && len(p.pickers) >= 1 && Z(len(p.pickers)) <= 4294967295
+//@   assert at call Pick#1 Z(p.next) == (Z(old(p.next)) + 1) % 4294967296
+//@   assert at call Pick#1 picker == p.pickers[(old(p.next)+1)%uint32(len(p.pickers))]
